@@ -568,7 +568,9 @@ def fill_context(context: Context) -> None:
             inner_mgr = unwrap_context(context.obj, context)
             if inner_mgr is None:
                 break
-            if inner_mgr == PRUNE:
+            if type(inner_mgr) is tuple and len(inner_mgr) == 0:
+                # PRUNE. (Not tested with ==, which would ask the manager
+                # that a hook has returned what it thinks it is equal to.)
                 context.hide = True
                 break
             # The inner manager replaces the outer one entirely, including
